@@ -258,11 +258,11 @@ End Blocks.
 (* ------------------------------------------------------------------ *)
 (* the APIs                                                             *)
 
-Lemma post_ok : forall kind, asafe (oom_post kind) oom_ok kind.
+Lemma oom_ret_ok_safe : forall kind, asafe (oom_post kind) oom_ok kind.
 Proof. intro. cbn. oom_close. Qed.
-Lemma post_fail : forall kind, asafe (oom_post kind) oom_fail 0.
+Lemma oom_ret_fail_safe : forall kind, asafe (oom_post kind) oom_fail 0.
 Proof. intro. cbn. oom_close. Qed.
-#[local] Hint Resolve post_ok post_fail : oom.
+#[local] Hint Resolve oom_ret_ok_safe oom_ret_fail_safe : oom.
 
 Lemma oom_dict_create_safe : asafe (oom_post 2) oom_dict_create_skel 0.
 Proof. apply oom_dict_create_k_safe; auto with oom. Qed.
